@@ -12,9 +12,47 @@ open Frame
 
 variable {α : Type}
 
+/-- After its first statement `slice` works with a non-negative offset (this is where the clamp
+of the *generated* arithmetic is needed: `max (n + offset) 0`). -/
+theorem sliceOffset_nonneg (n : Nat) (offset : Int) : 0 ≤ sliceOffset n offset := by
+  unfold sliceOffset Gen.Frame.sliceNegTest Gen.Frame.sliceNegStart
+  by_cases h : offset < 0
+  · simp only [h, if_true]; omega
+  · simp only [h, if_false]; omega
+
+/-- `slice(offset, length)` is the window of `length` rows (to the end when `None`) starting at
+`sliceStart`. -/
+theorem slice_eq (rows : List α) (offset : Int) (length : Option Nat) :
+    slice rows offset length =
+      match length with
+      | none => rows.drop (sliceStart rows.length offset)
+      | some l => (rows.drop (sliceStart rows.length offset)).take l := by
+  have h0 := sliceOffset_nonneg rows.length offset
+  obtain ⟨a, ha⟩ : ∃ a : Nat, sliceOffset rows.length offset = (a : Int) := ⟨_, (Int.toNat_of_nonneg h0).symm⟩
+  have hstart : sliceStart rows.length offset = min a rows.length := by
+    unfold sliceStart; rw [ha, pyBound_nonneg]
+  have hdrop : rows.drop (min a rows.length) = rows.drop a := by
+    by_cases h : a ≤ rows.length
+    · rw [Nat.min_eq_left h]
+    · have h' : rows.length ≤ a := by omega
+      rw [Nat.min_eq_right h', List.drop_eq_nil_iff.mpr (Nat.le_refl _), List.drop_eq_nil_iff.mpr h']
+  cases length with
+  | none => simp only [slice, ha, pySliceFrom_nonneg, hstart, hdrop]
+  | some l =>
+    simp only [slice, ha, hstart, hdrop, Gen.Frame.sliceZeroTest, Gen.Frame.sliceStop]
+    by_cases hl : (l : Int) = 0
+    · have : l = 0 := by omega
+      subst this; simp
+    · simp only [hl, if_false]
+      exact pySlice_nonneg rows a l
+
 /-- `head(k)` is the first `min k n` rows. -/
 theorem head_eq_take (rows : List α) (k : Nat) : head rows k = rows.take k := by
-  simp [head, slice, sliceStart]
+  unfold head
+  rw [slice_eq]
+  have : sliceStart rows.length (Gen.Frame.headOffset k) = 0 := by
+    simp [sliceStart, sliceOffset, Gen.Frame.headOffset, Gen.Frame.sliceNegTest, pyBound]
+  simp [this, Gen.Frame.headLength]
 
 /-- `tail(k)` is the last `min k n` rows — for every `k`, also `n < k` (the clamp). -/
 theorem tail_spec (rows : List α) (k : Nat) :
@@ -22,14 +60,20 @@ theorem tail_spec (rows : List α) (k : Nat) :
     ∧ (tail rows k).length = min k rows.length := by
   by_cases hk : k = 0
   · subst hk
-    simp [tail, slice, sliceStart]
-  have hstart : sliceStart rows.length (-(k : Int)) = rows.length - k := by
-    unfold sliceStart
-    have : (-(k : Int)) < 0 := by omega
-    simp only [this, if_true]
-    omega
+    unfold tail
+    rw [slice_eq]
+    simp [Gen.Frame.tailLength]
+  have hstart : sliceStart rows.length (Gen.Frame.tailOffset k) = rows.length - k := by
+    unfold sliceStart sliceOffset Gen.Frame.tailOffset Gen.Frame.sliceNegTest Gen.Frame.sliceNegStart pyBound
+    · have h1 : ((0 : Int) - (k : Int)) < 0 := by omega
+      simp only [h1, if_true]
+      have h2 : ¬ (max ((rows.length : Int) + (0 - (k : Int))) 0 < 0) := by omega
+      simp only [h2, if_false]
+      omega
   have h1 : tail rows k = (rows.drop (rows.length - k)).take k := by
-    simp [tail, slice, hstart]
+    unfold tail
+    rw [slice_eq, hstart]
+    simp [Gen.Frame.tailLength]
   have h2 : (rows.drop (rows.length - k)).take k = rows.drop (rows.length - k) := by
     apply List.take_of_length_le
     simp only [List.length_drop]; omega
@@ -41,28 +85,36 @@ theorem tail_spec (rows : List α) (k : Nat) :
 theorem slice_window (rows : List α) (offset : Int) (length : Option Nat) :
     ∃ i, slice rows offset length = (rows.drop i).take (slice rows offset length).length := by
   refine ⟨sliceStart rows.length offset, ?_⟩
+  rw [slice_eq]
   cases length with
   | none =>
-    simp only [slice]
+    simp only
     rw [List.take_of_length_le (Nat.le_refl _)]
   | some l =>
-    simp only [slice]
+    simp only
     rw [List.length_take]
     exact List.take_eq_take_min
 
-/-- For a non-negative offset the window starts at `offset`; for `-n ≤ offset < 0` at `n + offset`;
-further to the left it is clamped to the first row. -/
+/-- For a non-negative offset the window starts at `offset` (clamped to the row count); for
+`-n ≤ offset < 0` at `n + offset`; further to the left it is clamped to the first row. -/
 theorem slice_start (n : Nat) (offset : Int) :
-    (0 ≤ offset → sliceStart n offset = offset.toNat)
+    (0 ≤ offset → sliceStart n offset = min offset.toNat n)
     ∧ (offset < 0 → -(n : Int) ≤ offset → (sliceStart n offset : Int) = n + offset)
     ∧ (offset < -(n : Int) → sliceStart n offset = 0) := by
-  unfold sliceStart
+  unfold sliceStart sliceOffset Gen.Frame.sliceNegTest Gen.Frame.sliceNegStart pyBound
   refine ⟨?_, ?_, ?_⟩
-  · intro h; have : ¬ offset < 0 := by omega
-    simp [this]
-  · intro h1 h2; simp only [h1, if_true]; omega
-  · intro h; have : offset < 0 := by omega
-    simp only [this, if_true]; omega
+  · intro h; have h1 : ¬ offset < 0 := by omega
+    simp [h1]
+  · intro h1 h2
+    simp only [h1, if_true]
+    have h3 : ¬ (max ((n : Int) + offset) 0 < 0) := by omega
+    simp only [h3, if_false]
+    omega
+  · intro h; have h1 : offset < 0 := by omega
+    simp only [h1, if_true]
+    have h3 : ¬ (max ((n : Int) + offset) 0 < 0) := by omega
+    simp only [h3, if_false]
+    omega
 
 /-- Positional specification shared by `filter`, `take` and `query`: the rows kept are exactly
 those at the selected positions, in their original order. -/
@@ -224,6 +276,7 @@ theorem rows_preserved [DecidableEq α] (rows : List α) :
     ∧ (∀ r ∈ distinct rows, r ∈ rows) := by
   refine ⟨?_, ?_, ?_, ?_, ?_⟩
   · intro o l r hr
+    rw [slice_eq] at hr
     cases l with
     | none => exact List.mem_of_mem_drop hr
     | some l => exact List.mem_of_mem_drop (List.mem_of_mem_take hr)
